@@ -40,7 +40,11 @@ RULE = (
     'blank-only or with leading/trailing blanks, or plain numbers), '
     'optional '
     'PI/ORG/... lines, WDATE present or not, INDEPENDENT_VARIABLE_DEFINITION '
-    '"name, unit" present or not; written through file.save(format='
+    'present or not with 1-4 comma fields (name / name, units / name, units,'
+    ' long name / + one more; field 2 is the unit, also for the reference '
+    'parser), the output also re-read with its dependent-variable lines '
+    'extended to 3-4 fields (same names, units, data); missing codes 0 and '
+    '0.0 with valid cells equal to -999 / -9999; written through file.save(format='
     '"ffi1001") or ncf2ffi1001 directly.  Unmasked values never print like '
     'the missing code (by construction).  Oracle: (text) the independent '
     'line reader parses the output: line 1 "N, 1001", line N is the column '
@@ -82,7 +86,7 @@ UNITS = ['ppbv', 'pptv', 'hPa', 'K', 'm', 'degrees', 'molec/cm3', 'm s-1',
          'kg/(m2 s)', 'ppbv (dry)', 'm2/s2', 'degrees_north', 'nmol mol^-1']
 IUNITS = ['seconds', 's', 'seconds since midnight UTC', 'seconds_past_0Z']
 MISS_TYPICAL = [-9999, -9999, -99999, -999999, -9999999, -8888.8, -999.9,
-                -9999.0, -7777, 9999999, -999]
+                -9999.0, -7777, 9999999, -999, 0, 0.0]
 MISS_LONG = [-99999999, -999999999, -9999.9999, -99999.999, 99999999,
              -1234567.8, -99999999.0]
 # codes whose text is longer than any %.6e number (12-18 characters)
@@ -193,7 +197,14 @@ def cases(draw, tier='quick'):
                              max_size=nrec))
         # in-domain by construction: an unmasked value never prints like
         # the missing code
-        vals = [0.0 if (not m and prints_like(v, miss)) else v
+        if miss == 0:
+            # a code of 0: valid cells equal to the usual default codes
+            extra = draw(st.lists(st.sampled_from([None, None, -999.0,
+                                                   -9999.0]),
+                                  min_size=nrec, max_size=nrec))
+            vals = [v if x is None else x for v, x in zip(vals, extra)]
+        safe = 1.0 if prints_like(0.0, miss) else 0.0
+        vals = [safe if (not m and prints_like(v, miss)) else v
                 for v, m in zip(vals, mask)]
         deps.append(dict(name=names[k], unit=draw(st.sampled_from(UNITS)),
                          missing=miss, dtype=dt, values=vals, mask=mask,
@@ -202,6 +213,8 @@ def cases(draw, tier='quick'):
                          if maskkind == 'none' else 'masked'))
     # the reader masks the independent variable with the first dependent
     # variable's code: keep them apart (positive codes are >= 999999)
+    if deps[0]['missing'] == 0:
+        tv = [v + 12.0 if v == 0 else v for v in tv]
     if any(prints_like(v, deps[0]['missing']) for v in tv):
         raise AssertionError('independent variable collides with a code')
     nattr = draw(st.sampled_from([0, 1, 1, 2, 3, 4, 6]))
@@ -218,7 +231,13 @@ def cases(draw, tier='quick'):
         dim=draw(st.sampled_from(['POINTS', 'POINTS', 'time', 'obs'])),
         indep=dict(name=iname, unit=draw(st.sampled_from(IUNITS)),
                    values=tv, pos=draw(st.sampled_from([0, 0, 0, 1, ndep])),
-                   definition=draw(st.sampled_from([True, False]))),
+                   definition=draw(st.sampled_from([True, False])),
+                   # comma fields of the definition line: name / name, units
+                   # / name, units, long name (ICARTT v2) / + one more
+                   deffields=draw(st.sampled_from([2, 3, 1, 3, 2, 4]))),
+        # the same for the dependent-variable lines (judged on a copy of the
+        # output whose variable lines are extended, see check_case)
+        depfields=draw(st.sampled_from([2, 2, 3, 4])),
         deps=deps, attrs=attrs, head=head,
         sdate=draw(st.sampled_from(['2004, 06, 26', '1999, 12, 31',
                                     '2020, 02, 29'])),
@@ -304,13 +323,24 @@ def build(spec):
         f.WDATE = spec['wdate']
     f.INDEPENDENT_VARIABLE = spec['indep']['name']
     if spec['indep']['definition']:
-        f.INDEPENDENT_VARIABLE_DEFINITION = '%s, %s' % (
-            spec['indep']['name'], spec['indep']['unit'])
+        f.INDEPENDENT_VARIABLE_DEFINITION = indep_definition(spec)
     for k, v in spec['head'].items():
         setattr(f, k, v)
     for k, v in spec['attrs']:
         setattr(f, k, v)
     return f
+
+
+LONGNAMES = ['elapsed time since 0 hours UTC', 'Start time of the sample',
+             'mixing ratio (dry air)', 'number of seconds from 0000 UTC']
+
+
+def indep_definition(spec):
+    i = spec['indep']
+    n = i.get('deffields', 2)
+    parts = [i['name'], i['unit'], LONGNAMES[len(i['name']) % 4],
+             'see header'][:n]
+    return ', '.join(parts)
 
 
 def write(f, path, route):
@@ -383,6 +413,11 @@ def check_text(r, spec, text, clause):
                (len(p['rows']), len(spec['indep']['values'])))
     if p['indep_name'] != spec['indep']['name']:
         r.fail(clause + '-indep', 'line 9 names %r' % p['indep_line'])
+    if spec['indep']['definition'] and \
+            spec['indep'].get('deffields', 2) >= 2 and \
+            p['indep_unit'] != spec['indep']['unit']:
+        r.fail(clause + '-indep', 'line 9 is %r, unit should be %r' % (
+            p['indep_line'], spec['indep']['unit']))
     for tok, d in zip(p['missing'], spec['deps']):
         try:
             ok = float(tok) == float(d['missing'])
@@ -412,11 +447,17 @@ def check_read(r, spec, g, clause):
         r.fail(clause + '-indep-values', 'independent variable %s (mask %s),'
                ' expected %s' % (idata.tolist(), imask.astype(int).tolist(),
                                  wt.tolist()))
-    if spec['indep']['definition']:
+    if spec['indep']['definition'] and \
+            spec['indep'].get('deffields', 2) >= 2:
+        # the format's rule: field 2 of the definition line is the unit
         if str(getattr(iv, 'units', None)).strip() != spec['indep']['unit']:
             r.fail(clause + '-indep-unit', 'independent variable unit %r, '
-                   'input INDEPENDENT_VARIABLE_DEFINITION says %r' % (
-                       getattr(iv, 'units', None), spec['indep']['unit']))
+                   'input INDEPENDENT_VARIABLE_DEFINITION %r' % (
+                       getattr(iv, 'units', None), indep_definition(spec)))
+        iu = getattr(g, 'INDEPENDENT_VARIABLE_UNITS', None)
+        if str(iu).strip() != spec['indep']['unit']:
+            r.fail(clause + '-indep-unit', 'INDEPENDENT_VARIABLE_UNITS %r, '
+                   'definition line %r' % (iu, indep_definition(spec)))
     for d in spec['deps']:
         v = g.variables[d['name']]
         klass = 'missing>7digits' if sig_digits(d['missing']) > 7 else ''
@@ -520,6 +561,12 @@ def check_case(spec):
         r.label('missing-float')
     if any(d['missing'] > 0 for d in deps):
         r.label('missing-positive')
+    if any(d['missing'] == 0 for d in deps):
+        r.label('missing-code-zero')
+        if any(d['missing'] == 0 and any(
+                v in (-999.0, -9999.0) and not m
+                for v, m in zip(d['values'], d['mask'])) for d in deps):
+            r.label('missing-code-zero+valid--999')
     if any(d['dtype'] == 'f4' for d in deps):
         r.label('f4')
     if any('(' in d['unit'] for d in deps):
@@ -531,7 +578,9 @@ def check_case(spec):
     if spec['indep']['pos'] != 0:
         r.label('indep-not-first')
     if spec['indep']['definition']:
-        r.label('indep-definition')
+        r.label('indep-definition',
+                'indep-fields=%d' % spec['indep'].get('deffields', 2))
+    r.label('dep-fields=%d' % spec.get('depfields', 2))
     if spec['wdate'] is None:
         r.label('no-WDATE')
     if _nlines(spec) < 28:
@@ -571,6 +620,22 @@ def check_case(spec):
         if not ok:
             return r
         good = check_read(r, spec, g, 'read')
+        # ---- dependent-variable lines with 3-4 comma fields (ICARTT v2
+        # "name, units, long name"): the same text with extended variable
+        # lines must read back with the same names, units and data
+        nf = spec.get('depfields', 2)
+        if good and p is not None and nf > 2:
+            lines = text1.split('\n')
+            for k, d in enumerate(spec['deps']):
+                extra = [LONGNAMES[(k + 2) % 4], 'see header'][:nf - 2]
+                lines[12 + k] = ', '.join([d['name'], d['unit']] + extra)
+            p3 = os.path.join(base, 'out3.ict')
+            with open(p3, 'w') as fo:
+                fo.write('\n'.join(lines))
+            ok, g3 = guard(r, 'deplines-open', lambda: ffi1001(p3))
+            if ok:
+                check_same(r, g, g3, 'deplines')
+            g3 = None
         # ---- auto-detection
         ok, h = guard(r, 'autodetect-open', lambda: _autodetect(p1))
         if ok:
